@@ -62,6 +62,9 @@ class Ctx:
         self.paths_enumerated = 0
         self._bodies = {}
         self._evals = {}
+        # helpers that did not exist when the rules were written are inlined at their call sites (see mir.PathEval._inline_summary)
+        self.inline_set = frozenset()
+        self.inlined = set()
 
     # -- helpers for rules
     def body(self, key, required=True, rule="ANCHOR"):
@@ -86,8 +89,9 @@ class Ctx:
         b = self.body(key)
         if b is None:
             return None
-        pe = mir.PathEval(self.fx, b)
+        pe = mir.PathEval(self.fx, b, inline=self.inline_set)
         ps = pe.paths(**kw)
+        self.inlined |= pe.inlined
         self.paths_enumerated += len(ps)
         self._evals[ck] = ps
         return ps
@@ -173,13 +177,29 @@ def extract(repo, config, out):
         return r.returncode
 
 
+def inline_set(mod, fx):
+    """function items absent from the frozen list of the tree the rules were written against (sa/spec/known_items.json)"""
+    if not getattr(mod, "INLINE_HELPERS", True) or os.environ.get("VERIF_NO_INLINE"):
+        return frozenset()
+    try:
+        with open(os.path.join(HERE, "spec", "known_items.json")) as f:
+            known = set(json.load(f)["items"])
+    except Exception:
+        return frozenset()
+    return frozenset(k for k, v in fx.fns.items() if v["kind"] in ("Fn", "AssocFn") and k not in known)
+
+
 def run_property(prop, tier, fx, fx_nd):
     mod = importlib.import_module("rules." + prop.lower())
     ctx = Ctx(prop, tier, fx, fx_nd)
+    ctx.inline_set = inline_set(mod, fx)
     mod.run(ctx)
+    if ctx.inlined:
+        ctx.note("helpers not present when the rules were written, inlined at their call sites: %s" % ", ".join(sorted(ctx.inlined)))
     extra = None
     if tier == "thorough" and fx_nd is not None and getattr(mod, "CONFIG_SENSITIVE", True):
         ctx2 = Ctx(prop, tier, fx_nd, None, config="nodefault")
+        ctx2.inline_set = inline_set(mod, fx_nd)
         try:
             mod.run(ctx2)
         except Exception:
